@@ -275,6 +275,21 @@ Fixpoint eval (t : node) (e : env) : value :=
     end
   end.
 
+(** input well-formedness: program variables only (no [__cse_] names), references are leaves *)
+Definition head_vars (h : head) : list var :=
+  match h with
+  | HLet x | HRef x | HStreamMap x | HStreamFilter x => [x]
+  | HStreamFold a x => [a; x]
+  | _ => []
+  end.
+Definition is_uvar (v : var) : bool := match v with U _ => true | C _ => false end.
+
+Fixpoint wf_node (t : node) : bool :=
+  match t with
+  | Node _ _ h cs =>
+    forallb is_uvar (head_vars h) && (if is_ref h then is_nil cs else true) && forallb wf_node cs
+  end.
+
 (** strip identities (for comparison with the IR text read back) *)
 Fixpoint strip (t : node) : node :=
   match t with Node _ _ h cs => Node 0 false h (map strip cs) end.
